@@ -36,6 +36,28 @@ CLAIMED = {
  "C11": dict(cat="exploration", tech="bytecode verifier monitor (independent instruction-set description + abstract interpretation) over hooked code bytes / constant pool / deferred bodies of every emitted program",
    text="Each program the compiler emits for the C02/C03 workloads, constant-pad families and tree-built programs beyond the 16-bit limits is decoded and abstractly interpreted: known opcodes, operand ranges and kinds, forward jumps to instruction boundaries, path-independent non-negative stack depth, exactly one value at the final return, deferred bodies recursively.",
    note="Trusted: the instruction-set description in bridge/bytecode.go and the read-only hook VerifCompile / VerifThunkCode.", ref="DESIGN.md §4 C11"),
+
+ "C12": dict(cat="exploration", tech="panic / process-death / stall monitor around every public entry point under fuzzed sources and hostile host values; logical cost monitor (allocation counts) with per-family growth-ratio test; -asan build on a sample",
+   text="Eval, Debug, Compile and the Callable are driven with random and mutated sources, 42 hostile host values and 27 nesting families; any escaping panic, process death or confirmed stall is a violation; cost is measured in heap allocations and must stay under a cubic envelope per input and under a growth ratio of 1.7 per nesting level (termination restated as bounded cost).",
+   note="Trusted: runtime.MemStats.Mallocs as the cost unit; the parent's progress watchdog (a stall is confirmed by re-running the case alone). Unbounded 'always terminates' is outside this family of technique.", ref="DESIGN.md §4 C12"),
+ "C13": dict(cat="exploration", tech="history monitor: outcomes of long Compile/Invoke histories on reused engines and environment objects vs fresh-object baselines; stdout capture vs reference print log; before/after snapshots of host values",
+   text="Each operation of 50-400-step histories over reused engines, maps, *types.Env and *val.Env objects must have exactly the outcome (value, both renderings, failure class, environment rejection) it has on fresh objects; bytes written to fd 1 must equal the reference print log; host values are snapshotted before and after.",
+   note="Trusted: reference evaluator's print log; outcome equality ignores error message text.", ref="DESIGN.md §4 C13"),
+ "C14": dict(cat="exploration", tech="Go race detector (-race build is the deciding build) over barrier-released concurrent invocations / compilations, plus outcome-equality monitor against sequential execution",
+   text="One compiled expression invoked from 16-64 goroutines, compilations on separate engines and on one warmed-up engine, vm and closure compilers, repeated 10/50 times under -race with reports collected (halt_on_error=0) and de-duplicated; every concurrent outcome must equal the sequential one.",
+   note="Trusted: the race detector's happens-before analysis (cannot see inside the prebuilt C archive); only scheduler-produced interleavings are observed.", ref="DESIGN.md §4 C14"),
+ "C17": dict(cat="exploration", tech="algebraic-law monitors on types.Equals / types.Unify over exhaustively enumerated small types and random tuples; own occurs check and substitution application; reference one-way matcher",
+   text="All pairs of depth<=1 types (exhaustive) and depth<=2 (sampled/all), random argument tuples: Equals must be reflexive, symmetric and coincide with structural identity (also when one node is shared); every successful Unify is checked for an acyclic substitution that makes both sides equal (bottom on the right excepted); pattern-vs-ground success must coincide with the reference matcher.",
+   note="Trusted: reference structural equality / matcher (ref/ty.go).", ref="DESIGN.md §4 C17"),
+ "C18": dict(cat="exploration", tech="agreement monitor over ==, rendering, map-key identity and set membership on generated value pairs (identical / re-laid-out / one leaf changed), bound as host data",
+   text="For each pair the four notions of sameness are evaluated by the real engine and must agree with each other, be reflexive and symmetric, be invariant under field / insertion order, and both renderers must equal the reference renderers.",
+   note="Trusted: the pools respect the property's precondition. NaN and equal instants in different time.Location are recorded known findings (D26, D21).", ref="DESIGN.md §4 C18"),
+ "C19": dict(cat="exploration", tech="trace monitor on debug records (hook: entries) vs the reference evaluator's (value, column) log; report-content monitor; differential against normal evaluation and yae.Debug",
+   text="Debug evaluation must return what normal evaluation returns; the recorded entries must be exactly the reference evaluator's log of evaluated identifier / call / member / subscript nodes in order with the column of their own token; the rendered report must keep the source as first line and show every value at its column.",
+   note="Trusted: harness renderer's column bookkeeping (cross-checked against the plain renderer in a unit test).", ref="DESIGN.md §4 C19"),
+ "C20": dict(cat="exploration", tech="reference SQL reader monitor: emitted WHERE text is tokenised and parsed with standard precedence and compared (flattened) with the criteria tree; adversarial operand pools",
+   text="All AND/OR/NOT shapes to depth 3 (exhaustive) and sampled deeper, with every adversarial string and boundary number as literal or bound parameter; the text must read back to the same boolean structure and operands, each string as exactly one literal.",
+   note="Trusted: the reference reader's dialect (backtick identifiers, backslash-escaped double-quoted strings).", ref="DESIGN.md §4 C20"),
 }
 NOT_YET = "check not built yet in this session (see DESIGN.md §4); will be claimed when its monitor exists"
 
